@@ -60,7 +60,28 @@ def option_some_field(cond):
         x = e[1]
         if x[0] in ("path", "proj") and x[2]:
             return x[2][-1]
+    # `if self.set_F.is_some()` (true edge) / `if !self.set_F.is_none()`
+    neg = False
+    while e[0] == "un" and e[1] == "Not":
+        neg = not neg
+        e = e[2]
+    if e[0] == "call" and re.search(r"Option::<T>::is_(some|none)$", e[1]) and e[2] and e[2][0][0] in ("path", "proj") and e[2][0][2]:
+        truth = (val != "0") != neg
+        if truth == e[1].endswith("is_some"):
+            return e[2][0][2][-1]
     return None
+
+
+def keeps_current_when_unset(A, s, fname):
+    """the stored value is `self.set_F.or(config.F)` (or or_else / a copy of it): unchanged when the option is None"""
+    rv = s[2]
+    if rv[0] != "use":
+        return False
+    e = flow.expr_of(A, rv[1])
+    if e[0] == "call" and re.search(r"Option::<T>::(or|or_else|xor)$", e[1]) and len(e[2]) == 2 and e[1].endswith("::or"):
+        a, b = e[2]
+        return a[0] in ("path", "proj") and a[2] and a[2][-1] == f"set_{fname}" and b[0] in ("path", "proj") and b[2] and b[2][-1] == fname and b[1] == ("arg", 2)
+    return False
 
 
 def run(ctx, rep):
@@ -84,9 +105,9 @@ def run(ctx, rep):
     for (bi, fname, s) in stores:
         conds = cd_conditions(A, bi)
         somes = {option_some_field(c) for c in conds} - {None}
-        ok = f"set_{fname}" in somes
+        ok = f"set_{fname}" in somes or keeps_current_when_unset(A, s, fname)
         rep.check("C18.b", f"store/{fname}", ok, where=span_str(s[3]),
-                  what=f"config.{fname} is stored only under `if let Some(..) = self.set_{fname}`" if ok else
+                  what=f"config.{fname} is changed only if self.set_{fname} is Some" if ok else
                        f"config.{fname} is overwritten although the change did not name it (store not guarded by self.set_{fname}; guards seen: {sorted(somes)})")
     # every option has a store
     for of in ofields:
